@@ -905,6 +905,17 @@ pub fn step(s: &State, op: Op, cfg: &JudgeCfg) -> StepResult {
             .copied()
             .filter(|v| live0.contains(v) || succeeded)
             .collect();
+        if expect == Expect::Panics && matches!(outcome, Outcome::Panic(_)) && dropped.iter().filter(|v| **v == vals[0]).count() != 1 {
+            fails.push(mk(
+                C08 | C12,
+                "drop-ledger",
+                false,
+                &op,
+                class,
+                "payload-of-refused-call-retained",
+                format!("append_value on a removed node panicked, but the value handed to it was dropped {} times during the call (it must not stay in the arena)", dropped.iter().filter(|v| **v == vals[0]).count()),
+            ));
+        }
         if relevant != expected {
             fails.push(mk(
                 C08,
